@@ -24,7 +24,7 @@ PATH = os.path.join(os.path.dirname(os.path.abspath(__file__)), "ref_stmts.json"
 # findings in modules further than this from the reference are reported as "cannot decide" (exit 2).  Calibration
 # (tools/clause_corpus.py): the 160 confirmed breaking changes are at most 35 statements from the reference
 # (median 5); the wholesale refactorings of the preserving corpus start at 50.
-LIMIT = 40
+LIMIT = int(os.environ.get("PDSA_LIMIT", "40"))
 
 
 def _key(node):
